@@ -542,7 +542,9 @@ func forEachKeyGridCell(sh, nsh int, f func(cell string, wire []byte)) int {
 		has  bool
 	}{{"absent", rc.Val{}, false}, {"[]", rc.Array(), true}, {"[sign]", rc.Array(rc.Int(1)), true}, {"[verify]", rc.Array(rc.Int(2)), true},
 		{"[sign,verify]", rc.Array(rc.Int(1), rc.Int(2)), true}, {"[\"verify\",\"sign\"]", rc.Array(rc.Text("verify"), rc.Text("sign")), true},
-		{"[encrypt]", rc.Array(rc.Int(3)), true}, {"[\"bogus\"]", rc.Array(rc.Text("bogus")), true}, {"int", rc.Int(1), true}}
+		{"[encrypt]", rc.Array(rc.Int(3)), true}, {"[\"bogus\"]", rc.Array(rc.Text("bogus")), true}, {"int", rc.Int(1), true},
+		{"[\"deriveKey\",\"encrypt\"]", rc.Array(rc.Text("deriveKey"), rc.Text("encrypt")), true}, {"[\"decrypt\",\"wrapKey\",\"unwrapKey\",\"deriveBits\"]", rc.Array(rc.Text("decrypt"), rc.Text("wrapKey"), rc.Text("unwrapKey"), rc.Text("deriveBits")), true},
+		{"[\"Sign\"]", rc.Array(rc.Text("Sign")), true}, {"[10,9]", rc.Array(rc.Int(10), rc.Int(9)), true}}
 	cnt := 0
 	for _, kty := range ktys {
 		for _, crv := range crvs {
